@@ -2,7 +2,8 @@
 // supported input variant decodes to the format-defined pixels, truncated files are rejected (or
 // decode identically) without crash / leak / out-of-bounds access.
 //
-// subchecks: roundtrip (freshly drawn images, incl. pixel content with repeated / nearly repeated rows), derived (images
+// subchecks: roundtrip (freshly drawn images, incl. pixel content with repeated / nearly repeated rows and few-level noise, raster sizes at or
+// just under a power of two), idatlen (images found by search whose reference-compressed scanline data is an exact multiple of 4..32 KiB long), derived (images
 // produced by copy/move assignment or construction, set_channel_width, set_has_alpha, mirroring - "saving ANY image"),
 // large (sampled images beyond the enumerated 1..64 scope, up to 256 per side, mostly incompressible content, sizes next to
 // multiples of 32 KiB), variant (every supported input container variant; the LOADED image is an image too: it is compared
@@ -10,7 +11,7 @@
 //
 // Engine note: DESIGN.md plans Hypothesis + Python codecs + a serve shim. The same oracle is
 // implemented here in C++ (harness/c06/codecs.hh: encoders and decoders written from the format
-// specifications, own CRC-32, zlib only for inflate) because it removes the pipe round trip from
+// specifications, own CRC-32, zlib only for inflate - with the window the stream's own header declares - and, in `idatlen`, as the reference compressor that steers the search for images, never as an oracle) because it removes the pipe round trip from
 // the ~10^6 prefix loads per run and lets ASan see the loads in-process. A libFuzzer target
 // (fuzz/c06_truncate.cc) drives the same code with coverage guidance.
 #include <memory>
@@ -134,7 +135,14 @@ static void run_roundtrip_upto(const Case& c, size_t max_side) {
   if ((w % 4) || alpha || cw > 8) ctx().nontrivial_case();
   const char* sc = max_side > 64 ? "large" : "roundtrip";
   ctx().cls(cat(sc, ":cw", cw, alpha ? ":alpha" : ":opaque"));
-  ctx().cls(cat(sc, ":pixel-style-", style % 8));
+  ctx().cls(cat(sc, ":pixel-style-", style % kPixStyles));
+  {
+    // raster size w*h*channels at or just under a power of two (closer than one byte per row: the scanline data, one filter byte per
+    // row more, is then above it) - where "how much data is there" decisions of an encoder (buffer / window / block sizing) flip
+    size_t px = w * h * (alpha ? 4 : 3), p2 = 1;
+    while (p2 < px) p2 *= 2;
+    if (cw == 8 && p2 >= 256 && p2 - px < h) ctx().cls(cat(sc, ":raster-within-height-bytes-under-2^k"));
+  }
   if (max_side > 64) {
     // distance of the scanline data size h*(1+w*channels) (what a PNG encoder hands to deflate) from a multiple of 32 KiB
     size_t raw = h * (1 + w * (alpha ? 4 : 3)), d = raw % 32768;
@@ -219,12 +227,18 @@ static void check_saved(const phosg::Image& img, const Pix& pix, int via, int sa
       VCHECK(bytes == img.save(f), cat("save-overloads-differ:", fmt_name(f)), "save() to a string and save() to a file produce different bytes for ", tag);
     }
     Pix dec;
+    PngInfo pi;
     try {
-      dec = (f == phosg::Image::Format::PNG) ? decode_png(bytes) : decode_bmp(bytes);
+      dec = (f == phosg::Image::Format::PNG) ? decode_png(bytes, &pi) : decode_bmp(bytes);
     } catch (const DecodeError& e) {
       VFAIL(cat(fmt_name(f), "-invalid"), "independent decoder rejects the saved ", fmt_name(f), " of ", tag, ": ", e.what());
     }
     VCHECK(dec.same_pixels(pix), cat(fmt_name(f), "-pixels"), "independent decoder of the saved ", fmt_name(f), " of ", tag, ": ", dec.first_difference(pix));
+    if (f == phosg::Image::Format::PNG) {
+      if (pi.idat_bytes % 4096 == 0) ctx().cls(cat("png:idat-data-length-multiple-of-", pi.idat_bytes % 32768 == 0 ? 32768 : pi.idat_bytes % 16384 == 0 ? 16384 : pi.idat_bytes % 8192 == 0 ? 8192 : 4096));
+      if (pi.idat_chunks > 1) ctx().cls("png:several-IDAT-chunks");
+      if (pi.window_bits < 15) ctx().cls("png:declared-window-below-32K");
+    }
     if (f == phosg::Image::Format::WINDOWS_BITMAP) {
       mf.set(bytes.data(), bytes.size());
       Loaded r = load_checked(via, "saved BMP of " + tag, &img);
@@ -261,8 +275,19 @@ static Case gen_roundtrip() {
   size_t h = vg::chance(1, 3) ? vg::range(1, 9) : vg::range(1, 64);
   bool alpha = vg::coin();
   unsigned cw = vg::pick<unsigned>({8, 8, 8, 16, 32, 64});
-  unsigned style = vg::pick<unsigned>({0, 0, 0, 1, 2, 3, 4, 5, 5, 6, 7});
+  unsigned style = vg::pick<unsigned>({0, 0, 0, 1, 2, 3, 4, 5, 5, 6, 7, 8});
   uint64_t seed = vg::u64();
+  if (vg::chance(1, 6)) {
+    // 8-bit image whose raster size w*h*channels is a power of two 2^b (or as close under it as the row length allows), low-entropy or
+    // vertically redundant content (so that the compressor has far matches to use): width first, then b, then the height
+    cw = 8;
+    w = vg::chance(1, 2) ? vg::range(1, 8) : vg::range(1, 64);
+    size_t row = w * (alpha ? 4 : 3), bmax = 0;
+    while ((2ULL << bmax) <= row * 64) bmax++;
+    size_t b = vg::chance(1, 2) ? bmax : vg::range(std::min<size_t>(8, bmax), bmax);
+    h = std::max<size_t>(1, (size_t(1) << b) / row);
+    style = vg::pick<unsigned>({8, 8, 8, 8, 5, 7, 4});
+  }
   size_t approx = w * h * (alpha ? 4 : 3) * (cw / 8);
   uint64_t flags = (approx <= 600 ? vg::chance(1, 2) : vg::chance(1, 12)) ? 1 : 0;
   flags |= vg::below(3) << 1;
@@ -292,7 +317,24 @@ static void enum_roundtrip(Enum& e) {
       }
     }
   }
-  e.complete(cat("all widths 1..64 x heights {", heights.size(), " values} x alpha x channel width 8/16/32/64: save as PPM/BMP/PNG, independent decode, reload"));
+  // every 8-bit (width, alpha) with the tallest height <= 64 that puts the raster size w*h*channels at or just under a power of two, for the
+  // widths where that is closer than one byte per row (the scanline data is then above the power of two), few-level noise
+  for (size_t w = 1; w <= 64 && !e.stop; w++) {
+    for (int alpha = 0; alpha < 2; alpha++) {
+      size_t row = w * (alpha ? 4 : 3);
+      for (size_t p2 = 256; p2 <= 16384; p2 *= 2) {
+        size_t h = p2 / row;
+        if (h < 1 || h > 64 || p2 - h * row >= h) continue;
+        for (uint64_t k = 0; k < (e.thorough() ? 6u : 2u); k++) {
+          idx++;
+          if (!e.mine(idx)) continue;
+          e.exec(Case(e.sc.name).N(w).N(h).N(alpha).N(8).N(8).N(idx * 77 + k).N(((idx % 3) << 1) | ((idx % 4) << 3)));
+          if (e.stop) return;
+        }
+      }
+    }
+  }
+  e.complete(cat("all widths 1..64 x heights {", heights.size(), " values} x alpha x channel width 8/16/32/64: save as PPM/BMP/PNG, independent decode, reload; every 8-bit (width, alpha, height <= 64) whose raster size is less than `height` bytes under a power of two 2^8..2^14, few-level noise"));
 }
 
 // ---------------------------------------------------------------- large
@@ -637,6 +679,121 @@ static void enum_variant(Enum& e) {
   e.complete("every sub-variant (whitespace, header-line order, maxval, header size, byte-mask permutation, direction, data offset) of the 14 container variants at small sizes; every prefix of a spread of them for widths 1..5 (quick) / 1..9 (thorough)");
 }
 
+// ---------------------------------------------------------------- idatlen
+// "Saving ANY image ... the PNG bytes are valid files ... (zlib stream ... correct)": an encoder moves the COMPRESSED data through
+// buffers and chunks of its own choosing, so the length of the compressed data is an input dimension of its own - and one that no
+// choice of width/height/fill controls directly (noise compresses to raw+constant, smooth content to almost nothing). This class
+// FINDS images whose compressed length is an exact multiple of 2^k, k = 12..15 (4/8/16/32 KiB: the usual chunk and buffer sizes),
+// with the reference compressor (zlib's compress2 at level 9 on the scanline data filter-byte-0 + row, i.e. what an encoder that
+// does not filter hands to deflate; if the encoder under test compresses something else the search target is simply missed and
+// the case is still a valid image - the class label `png:idat-data-length-multiple-of-N` is taken from the file actually written):
+// noise, with the first z samples (raster order) set to 0; the compressed length falls by about one byte per zeroed sample, so a
+// few corrected jumps plus a short scan reach the target. The search is a deterministic function of the case.
+// n = [w, h, alpha, seed, k, j, flags]: target = the (j mod count)-th multiple of 2^k below the compressed length of the plain noise image
+static size_t ref_deflated_size(const Pix& p, std::vector<uint8_t>& scan, std::vector<uint8_t>& out) {
+  size_t nc = p.alpha ? 4 : 3, stride = 1 + p.w * nc;
+  scan.resize(stride * p.h);
+  for (size_t y = 0; y < p.h; y++) {
+    scan[y * stride] = 0;
+    for (size_t x = 0; x < p.w; x++) {
+      for (size_t c = 0; c < nc; c++) scan[y * stride + 1 + x * nc + c] = static_cast<uint8_t>(p.v[(y * p.w + x) * 4 + c]);
+    }
+  }
+  uLongf n = compressBound(scan.size());
+  out.resize(n);
+  if (compress2(out.data(), &n, scan.data(), scan.size(), 9) != Z_OK) throw std::logic_error("idatlen: reference compress2 failed");
+  return n;
+}
+
+static void run_idatlen(const Case& c) {
+  size_t w = c.u(0), h = c.u(1);
+  bool alpha = c.u(2) != 0;
+  uint64_t seed = c.u(3), k = c.u(4), j = c.u(5), flags = c.u(6);
+  if (w < 1 || w > 256 || h < 1 || h > 256 || k < 12 || k > 15) throw std::logic_error("idatlen: case outside the domain");
+  int via = (flags >> 1) & 3;
+  if (via == 3) via = 0;
+  int save_how = (flags >> 3) & 3;
+  size_t nc = alpha ? 4 : 3, total = w * h * nc, M = size_t(1) << k;
+
+  const Pix noise = make_pix(w, h, alpha, 8, 0, seed);
+  std::vector<uint8_t> scan, out;
+  auto with_zeros = [&](size_t z) {
+    Pix p = noise;
+    for (size_t i = 0; i < z; i++) p.v[(i / nc) * 4 + (i % nc)] = 0;
+    return p;
+  };
+  auto f = [&](size_t z) { return ref_deflated_size(with_zeros(z), scan, out); };
+  size_t f0 = f(0), count = f0 / M;
+  Pix pix = noise;
+  bool found = false;
+  if (count == 0) {
+    ctx().cls("idatlen:image-compresses-below-2^k");
+  } else {
+    size_t target = M * (1 + j % count);
+    size_t z = 0, fz = f0, evals = 1;
+    for (int it = 0; it < 24 && fz != target; it++) {
+      size_t nz = fz > target ? z + (fz - target) : (z > target - fz ? z - (target - fz) : 0);
+      if (nz > total) nz = total;
+      if (nz == z) break;
+      z = nz, fz = f(z), evals++;
+    }
+    if (fz != target) {
+      // scan the neighbourhood
+      size_t lo = z > 48 ? z - 48 : 0, hi = std::min(total, z + 48);
+      for (size_t q = lo; q <= hi && fz != target; q++) z = q, fz = f(q), evals++;
+    }
+    found = fz == target;
+    pix = with_zeros(z);
+    ctx().cls(found ? cat("idatlen:reference-compressed-length-is-multiple-of-2^", k) : "idatlen:search-missed");
+    ctx().cls("idatlen:reference-compressions", evals);
+  }
+  if (found) ctx().nontrivial_case();
+  phosg::Image img = to_image(pix);
+  std::string tag = cat(w, "x", h, alpha ? " alpha" : "", " cw=8 (noise after a run of zero samples; reference deflate length ", found ? "an exact" : "not a", " multiple of ", M, ")");
+  check_saved(img, pix, via, save_how, false, 1024, tag);
+}
+
+// dimensions whose noise image compresses to more than 2^k bytes, by construction: scanline data h*(1+w*channels) >= 2^k + 32
+static Case gen_idatlen() {
+  Case c;
+  bool alpha = vg::coin();
+  size_t nc = alpha ? 4 : 3;
+  uint64_t k = vg::pick<uint64_t>({12, 12, 13, 13, 13, 14, 15});
+  size_t need = (size_t(1) << k) + 32;
+  bool fits64 = 64 * (1 + 64 * nc) >= need; // the enumerated scope reaches 2^k (k = 14 only with alpha, k = 15 never)
+  size_t smax = (fits64 && !vg::chance(1, 10)) ? 64 : (k == 15 ? 200 : 128);
+  size_t wmin = 1;
+  while (smax * (1 + wmin * nc) < need) wmin++;
+  size_t w = vg::range(wmin, smax);
+  size_t stride = 1 + w * nc;
+  size_t hmin = (need + stride - 1) / stride;
+  if (hmin > smax) hmin = smax; // cannot happen: w >= wmin
+  size_t h = vg::range(hmin, smax);
+  uint64_t flags = (vg::below(3) << 1) | (vg::below(4) << 3);
+  c.N(w).N(h).N(alpha).N(vg::u64()).N(k).N(vg::below(8)).N(flags);
+  return c;
+}
+
+static void enum_idatlen(Enum& e) {
+  // in the enumerated scope (<= 64 per side): each k with the largest image of either kind that reaches 2^k, every multiple of 2^k it covers
+  uint64_t idx = 0;
+  for (uint64_t k = 12; k <= 14 && !e.stop; k++) {
+    for (int alpha = 0; alpha < 2; alpha++) {
+      size_t raw = 64 * (1 + 64 * (alpha ? 4 : 3));
+      for (uint64_t j = 0; j < raw >> k; j++) {
+        for (size_t w : {size_t(64), size_t(63)}) {
+          if (64 * (1 + w * (alpha ? 4 : 3)) < ((j + 1) << k) + 32) continue;
+          idx++;
+          if (!e.mine(idx)) continue;
+          e.exec(Case(e.sc.name).N(w).N(64).N(alpha).N(idx * 7919 + 3).N(k).N(j).N(((idx % 3) << 1) | ((idx % 4) << 3)));
+          if (e.stop) return;
+        }
+      }
+    }
+  }
+  e.complete("64x64 and 63x64 8-bit images, with and without alpha, for every multiple of 4096 / 8192 / 16384 below their noise-compressed size: an image found by search whose reference-compressed scanline data has exactly that length, through the save-side oracle");
+}
+
 int main(int argc, char** argv) {
   std::vector<SubCheck> checks;
   {
@@ -666,6 +823,16 @@ int main(int argc, char** argv) {
     s.enumerate = enum_derived;
     s.quick_cases = 700;
     s.thorough_cases = 20000;
+    checks.push_back(s);
+  }
+  {
+    SubCheck s;
+    s.name = "idatlen";
+    s.run = run_idatlen;
+    s.gen = gen_idatlen;
+    s.enumerate = enum_idatlen;
+    s.quick_cases = 64;
+    s.thorough_cases = 1500;
     checks.push_back(s);
   }
   {
